@@ -81,6 +81,7 @@ package go_clipper2
 
 //@ func TrimCollinear64
 //@   props C15 C03
+//@   pure
 //@   requires domPath(path, 29)
 //@   loop 0 invariant [idx] 0 <= i && (i < l || i == 0) && l == len(path)
 //@   loop 0 decreases l - i
@@ -366,6 +367,7 @@ package go_clipper2
 
 //@ func minkowskiInternal
 //@   props C08 C03
+//@   pure
 //@   requires domPath(pattern, 27) && domPath(path, 27)
 //@   requires int64(len(pattern)) <= pow2(30) && int64(len(path)) <= pow2(30)
 //@   loop 0 invariant [tmp] len(tmp) == _i && patLen == len(pattern) && pathLen == len(path) && forall(k, 0, _i, len(tmp[k]) == patLen && forall(m, 0, patLen, tmp[k][m] == mkPt(path[k], pattern[m], isSum)))
@@ -388,3 +390,146 @@ package go_clipper2
 //@   ensures [count] len(path) >= ite(isClosed, 0, 1) ==> len(result) == (len(path) - ite(isClosed, 0, 1)) * len(pattern)
 //@   ensures [empty] len(path) < ite(isClosed, 0, 1) ==> len(result) == 0
 //@   ensures [quads] forall(k, 0, len(result), quadSome(result[k], pattern, path, isSum, ite(isClosed, 0, 1)))
+
+// ---------------------------------------------------------------------------------
+// C07: floating-point API == integer API on quantised input; C19/C08 wrappers
+// ---------------------------------------------------------------------------------
+
+//@ func checkPrecision
+//@   props C07 C03
+//@   panics precision < -8 || precision > 8
+
+//@ func ScalePathDToPath64
+//@   props C07 C03
+//@   pure
+//@   loop 0 invariant [each] len(result) == len(path) && forall(k, 0, _i, result[k].X == quant(path[k].X*scale) && result[k].Y == quant(path[k].Y*scale))
+//@   ensures [quantised] len(result) == len(path) && forall(k, 0, len(path), result[k].X == quant(path[k].X*scale) && result[k].Y == quant(path[k].Y*scale))
+
+//@ func ScalePath64ToPathD
+//@   props C07 C03
+//@   pure
+//@   loop 0 invariant [each] len(result) == len(path) && forall(k, 0, _i, result[k].X == toReal(path[k].X)*scale && result[k].Y == toReal(path[k].Y)*scale)
+//@   ensures [scaled] len(result) == len(path) && forall(k, 0, len(path), result[k].X == toReal(path[k].X)*scale && result[k].Y == toReal(path[k].Y)*scale)
+
+//@ func ScalePathsDToPaths64
+//@   props C07 C03
+//@   pure
+//@   loop 0 invariant [each] len(result) == len(paths) && forall(k, 0, _i, same(result[k], ScalePathDToPath64(paths[k], scale)))
+//@   ensures [path-by-path] len(result) == len(paths) && forall(k, 0, len(paths), same(result[k], ScalePathDToPath64(paths[k], scale)))
+
+//@ func ScalePaths64ToPathsD
+//@   props C07 C03
+//@   pure
+//@   loop 0 invariant [each] len(result) == len(paths) && forall(k, 0, _i, same(result[k], ScalePath64ToPathD(paths[k], scale)))
+//@   ensures [path-by-path] len(result) == len(paths) && forall(k, 0, len(paths), same(result[k], ScalePath64ToPathD(paths[k], scale)))
+
+//@ func ScaleRectD
+//@   props C07
+//@   pure
+//@   requires absI(rec.left*scale) < 2305843009213693952.0 && absI(rec.top*scale) < 2305843009213693952.0 && absI(rec.right*scale) < 2305843009213693952.0 && absI(rec.bottom*scale) < 2305843009213693952.0
+//@   ensures [truncates] result.left == truncF(rec.left*scale) && result.top == truncF(rec.top*scale) && result.right == truncF(rec.right*scale) && result.bottom == truncF(rec.bottom*scale)
+//@   expect  [quantised-like-paths] result.left == quant(rec.left*scale) && result.top == quant(rec.top*scale) && result.right == quant(rec.right*scale) && result.bottom == quant(rec.bottom*scale)
+
+//@ func NewClipperD
+//@   props C07 C03
+//@   panics decimalPrecision != 0 && (decimalPrecision < -8 || decimalPrecision > 8)
+//@   ensures [scale] result != nil && result.clipperBase != nil && result.scale == pow10(ite(decimalPrecision == 0, 2, decimalPrecision)) && result.invScale == 1/result.scale
+//@   expect  [precision-0-means-0] decimalPrecision == 0 ==> result.scale == pow10(0)
+
+//@ func TrimCollinearD
+//@   props C07
+//@   requires domPath(ScalePathDToPath64(path, pow10(precision)), 29)
+//@   panics precision < -8 || precision > 8
+//@   ensures [composition] same(result, ScalePath64ToPathD(TrimCollinear64(ScalePathDToPath64(path, pow10(precision)), isOpen), 1/pow10(precision)))
+
+//@ func BooleanOpPaths64
+//@   props C19
+//@   pure
+//@   frameonly
+
+//@ func UnionPaths64
+//@   props C19 C08
+//@   pure
+//@   ensures [wrapper] same(result, BooleanOpPaths64(Union, subject, nil, fillRule))
+
+//@ func UnionWithClipPaths64
+//@   props C19
+//@   ensures [wrapper] same(result, BooleanOpPaths64(Union, subject, clip, fillRule))
+
+//@ func IntersectWithClipPaths64
+//@   props C19
+//@   ensures [wrapper] same(result, BooleanOpPaths64(Intersection, subject, clip, fillRule))
+
+//@ func DifferenceWithClipPaths64
+//@   props C19
+//@   ensures [wrapper] same(result, BooleanOpPaths64(Difference, subject, clip, fillRule))
+
+//@ func XorWithClipPaths64
+//@   props C19
+//@   ensures [wrapper] same(result, BooleanOpPaths64(Xor, subject, clip, fillRule))
+
+//@ func MinkowskiSum64
+//@   props C08
+//@   requires domPath(pattern, 27) && domPath(path, 27) && int64(len(pattern)) <= pow2(30) && int64(len(path)) <= pow2(30)
+//@   ensures [composition] same(result, UnionPaths64(minkowskiInternal(pattern, path, true, isClosed), NonZero))
+
+//@ func MinkowskiDiff64
+//@   props C08
+//@   requires domPath(pattern, 27) && domPath(path, 27) && int64(len(pattern)) <= pow2(30) && int64(len(path)) <= pow2(30)
+//@   ensures [composition] same(result, UnionPaths64(minkowskiInternal(pattern, path, false, isClosed), NonZero))
+
+//@ spec precOf(precisionV []int) int = ite(len(precisionV) > 0, precisionV[0], 2)
+
+//@ func MinkowskiSumD
+//@   props C07 C08
+//@   requires domPath(ScalePathDToPath64(pattern, pow10(precOf(precisionV))), 27) && domPath(ScalePathDToPath64(path, pow10(precOf(precisionV))), 27) && int64(len(pattern)) <= pow2(30) && int64(len(path)) <= pow2(30)
+//@   panics precOf(precisionV) < -8 || precOf(precisionV) > 8
+//@   ensures [composition] same(result, ScalePaths64ToPathsD(UnionPaths64(minkowskiInternal(ScalePathDToPath64(pattern, pow10(precOf(precisionV))), ScalePathDToPath64(path, pow10(precOf(precisionV))), true, isClosed), NonZero), 1/pow10(precOf(precisionV))))
+
+//@ func MinkowskiDiffD
+//@   props C07 C08
+//@   requires domPath(ScalePathDToPath64(pattern, pow10(precOf(precisionV))), 27) && domPath(ScalePathDToPath64(path, pow10(precOf(precisionV))), 27) && int64(len(pattern)) <= pow2(30) && int64(len(path)) <= pow2(30)
+//@   panics precOf(precisionV) < -8 || precOf(precisionV) > 8
+//@   ensures [composition] same(result, ScalePaths64ToPathsD(UnionPaths64(minkowskiInternal(ScalePathDToPath64(pattern, pow10(precOf(precisionV))), ScalePathDToPath64(path, pow10(precOf(precisionV))), false, isClosed), NonZero), 1/pow10(precOf(precisionV))))
+
+//@ spec rectDom(r Rect64) bool = absI(r.left) <= pow2(61) && absI(r.top) <= pow2(61) && absI(r.right) <= pow2(61) && absI(r.bottom) <= pow2(61)
+//@ spec rectClipExec(rect Rect64, getPath func(op *OutPt2) Path64, paths Paths64) Paths64
+
+//@ func RectClip64.Execute
+//@   props C07 C06 C11
+//@   trusted
+//@   ensures [abstract] same(result, rectClipExec(old(r.rect), old(r.getPath), paths))
+
+//@ func NewRectClip64
+//@   props C07 C06 C11
+//@   requires rectDom(rect)
+//@   loop 0 invariant [edges] 0 <= i && i <= 8 && len(vEdges) == 8
+//@   loop 0 decreases 8 - i
+//@   ensures [wired] result != nil && result.rect == rect && same(result.getPath, ite(len(getPathV) > 0, getPathV[0], getPathRectClip)) && len(result.results) == 0
+//@   ensures [rect-path] len(result.rectPath) == 4 && result.rectPath[0] == Point64{rect.left, rect.top} && result.rectPath[1] == Point64{rect.right, rect.top} && result.rectPath[2] == Point64{rect.right, rect.bottom} && result.rectPath[3] == Point64{rect.left, rect.bottom}
+
+//@ func RectClipPaths64
+//@   props C07 C06
+//@   requires rectDom(rect)
+//@   ensures [empty] (rect.bottom <= rect.top || rect.right <= rect.left || len(paths) == 0) ==> len(result) == 0
+//@   ensures [exec] !(rect.bottom <= rect.top || rect.right <= rect.left || len(paths) == 0) ==> same(result, rectClipExec(rect, getPathRectClip, paths))
+
+//@ func RectClipLinesPaths64
+//@   props C07 C11
+//@   requires rectDom(rect)
+//@   ensures [empty] (rect.bottom <= rect.top || rect.right <= rect.left || len(paths) == 0) ==> len(result) == 0
+//@   ensures [exec] !(rect.bottom <= rect.top || rect.right <= rect.left || len(paths) == 0) ==> same(result, rectClipExec(rect, getPathRectClipLine, paths))
+
+//@ func RectClipPathsD
+//@   props C07
+//@   requires absI(rect.left*pow10(precOf(precisionV))) < 2305843009213693952.0 && absI(rect.top*pow10(precOf(precisionV))) < 2305843009213693952.0 && absI(rect.right*pow10(precOf(precisionV))) < 2305843009213693952.0 && absI(rect.bottom*pow10(precOf(precisionV))) < 2305843009213693952.0
+//@   panics precOf(precisionV) < -8 || precOf(precisionV) > 8
+//@   ensures [empty] (rect.bottom <= rect.top || rect.right <= rect.left || len(paths) == 0) ==> len(result) == 0
+//@   ensures [composition] !(rect.bottom <= rect.top || rect.right <= rect.left || len(paths) == 0) ==> same(result, ScalePaths64ToPathsD(rectClipExec(ScaleRectD(rect, pow10(precOf(precisionV))), getPathRectClip, ScalePathsDToPaths64(paths, pow10(precOf(precisionV)))), 1/pow10(precOf(precisionV))))
+
+//@ func RectClipLinesPathsD
+//@   props C07
+//@   requires absI(rect.left*pow10(precOf(precisionV))) < 2305843009213693952.0 && absI(rect.top*pow10(precOf(precisionV))) < 2305843009213693952.0 && absI(rect.right*pow10(precOf(precisionV))) < 2305843009213693952.0 && absI(rect.bottom*pow10(precOf(precisionV))) < 2305843009213693952.0
+//@   panics precOf(precisionV) < -8 || precOf(precisionV) > 8
+//@   ensures [empty] (rect.bottom <= rect.top || rect.right <= rect.left || len(paths) == 0) ==> len(result) == 0
+//@   ensures [composition] !(rect.bottom <= rect.top || rect.right <= rect.left || len(paths) == 0) ==> same(result, ScalePaths64ToPathsD(rectClipExec(ScaleRectD(rect, pow10(precOf(precisionV))), getPathRectClipLine, ScalePathsDToPaths64(paths, pow10(precOf(precisionV)))), 1/pow10(precOf(precisionV))))
